@@ -174,6 +174,15 @@ def t_or(*xs: Term) -> Term:
 _CMP_FLIP = {"<": ">", ">": "<", "<=": ">=", ">=": "<=", "==": "==", "!=": "!=", "is": "is", "isnot": "isnot"}
 
 
+def _identity_safe(t: Term) -> bool:
+    """values for which ``is`` and ``==`` agree: None, True / False, enumeration members, module-level marker objects, classes and functions"""
+    if not isinstance(t, tuple) or not t:
+        return False
+    if t[0] == "const":
+        return t[1] is None or isinstance(t[1], bool)
+    return t[0] in ("enum", "sentinel", "cls", "fn", "global")
+
+
 def t_cmp(op: str, a: Term, b: Term) -> Term:
     """Canonical comparison.  Arithmetic comparisons become ``(cmp, op, a-b, 0)`` with a sign-normalised
     left side so that ``x > y`` and ``y < x`` are the same atom; (in)equalities order their operands."""
@@ -197,9 +206,16 @@ def t_cmp(op: str, a: Term, b: Term) -> Term:
         na, nb = number(a), number(b)
         if na is not None and nb is not None:
             r = na == nb
+            if r and op in ("is", "isnot"):
+                e = ("same", a, b)
+                return e if op == "is" else t_not(e)
             return const(r if op in ("==", "is") else not r)
         if a[0] == "const" and b[0] == "const":
             r = a[1] == b[1]
+            if r and op in ("is", "isnot") and not (_identity_safe(a) or _identity_safe(b)):
+                # two equal strings / numbers need not be one object (values built at run time are not): identity stays open
+                e = ("same", a, b)
+                return e if op == "is" else t_not(e)
             return const(r if op in ("==", "is") else not r)
         if a[0] == "enum" and b[0] == "enum":
             r = a == b
@@ -219,7 +235,11 @@ def t_cmp(op: str, a: Term, b: Term) -> Term:
             e = ("eq", d, lin({}, Fraction(0)))
             return e if op == "==" else t_not(e)
         x, y = sorted([a, b], key=repr)
-        # 'is' and '==' against None / enum members are the same relation for our purposes
+        # 'is' and '==' against None / enum members / booleans / sentinels / classes are the same relation; between two ordinary values (strings, numbers,
+        # containers, objects with value equality) identity is a DIFFERENT relation and gets its own atom
+        if op in ("is", "isnot") and not (_identity_safe(a) or _identity_safe(b)):
+            e = ("same", x, y)
+            return e if op == "is" else t_not(e)
         e = ("eq", x, y)
         return e if op in ("==", "is") else t_not(e)
     if op == "in":
@@ -298,6 +318,8 @@ def show(t: Any) -> str:
         return f"({show(t[2])} {t[1]} 0)"
     if k == "eq":
         return f"({show(t[1])} == {show(t[2])})"
+    if k == "same":
+        return f"({show(t[1])} is {show(t[2])})"
     if k == "in":
         return f"({show(t[1])} in {show(t[2])})"
     if k == "not":
@@ -2209,6 +2231,8 @@ def subst(t, mapping: Dict[Term, Term]):
         return out
     if k == "eq":
         return t_cmp("==", subst(t[1], mapping), subst(t[2], mapping))
+    if k == "same":
+        return t_cmp("is", subst(t[1], mapping), subst(t[2], mapping))
     if k == "cmp":
         return t_cmp(t[1], subst(t[2], mapping), lin({}, Fraction(0)))
     if k == "not":
@@ -2241,7 +2265,17 @@ def subst(t, mapping: Dict[Term, Term]):
             for kk, vv in b0[1]:
                 if kk == idx:
                     return vv
+        if b0[0] in ("list", "tuple"):
+            i = _int_const(idx)
+            if i is not None and -len(b0[1]) <= i < len(b0[1]) and not any(x[0] == "star" for x in b0[1]):
+                return b0[1][i]
         return ("sub", base, idx)
+    if k == "item" and len(t) == 3 and isinstance(t[2], int):
+        base = subst(t[1], mapping)
+        b0 = _plain_display(base)
+        if b0[0] in ("list", "tuple") and -len(b0[1]) <= t[2] < len(b0[1]) and not any(x[0] == "star" for x in b0[1]):
+            return b0[1][t[2]]
+        return ("item", base, t[2])
     if k in ("max", "min"):
         return (k, tuple(sorted((subst(x, mapping) for x in t[1]), key=repr)))
     if k == "bag":
